@@ -24,6 +24,20 @@ Monitors (implementation alone, from the property text):
       names are NameErrors
   M5  pyimport leaves the context unchanged
   M6  pickle round trip / deepcopy / copy of the Context keeps keys, order and values (identity for copy)
+  M7  (deferred nested scopes) `set: k: !py <expr>` / `foreach: !py <expr>` are judged like M1 (context
+      unchanged except key `set` popped + key k bound / key `i` written by the step runner) and like M3: the
+      plain-Python reading is a globals dict whose misses fall through to the context AS IT IS AT THAT MOMENT,
+      then the pyimport record, then builtins (`impl_c14.Live`); function / generator objects the real
+      evaluation made are paired with the ones the plain reading made ("twins") and later calls / drains /
+      foreach loops of them are compared; `name 'x' is not defined` raised from a `!py` scope for an x that is
+      at that moment a context key / pyimport name / builtin is a violation in any case
+  M8  a py block is judged against plain Python: `exec` of the same source with a dict copy of the context
+      (and nothing else: NOT the pyimport names) as globals plus a `save` that copies named variables back,
+      run on a deep copy of the context's world; outcome and the context afterwards must be the same
+  M9  (implementation only, not compared with the model) every mutating method of the namespace object and
+      of the objects reachable from it by method call (`copy()`, `new_child()`, `parents`, `|`), through
+      every receiver (`globals()`, `locals()`, `vars()`, from a lambda / comprehension / :=): context keys,
+      order, bindings and the pyimport namespace unchanged, later reads as before
 """
 from __future__ import annotations
 
@@ -36,7 +50,8 @@ import signal
 from .. import common
 from ..common import canon
 from .. import impl_c14 as I
-from ..impl_c14 import N, C, W, T, Lam, Call, App, Comp, As, Aug, Del, Ex, Def, Cls, Save, Imp, tok, ref
+from ..impl_c14 import (N, C, W, T, Lam, Call, App, Comp, GenE, Drain, Ns, SetI, SetS, As, Aug, Del, Ex, Def, Cls, Save, Imp,
+                         tok, ref)
 
 LEAN_MODULES = ['Props.C14']
 TRUSTED = ['harness/props/c14.py + harness/impl_c14.py (generator, renderer AST -> Python source, marker '
@@ -48,8 +63,24 @@ ASSUMPTIONS = ['PyNs is a model of name binding, not of Python: values are opaqu
                'keys `save` and `__builtins__` are hidden from a py block by design (ADR 0001); counted, not judged',
                'calling / iterating / += on real builtins and pypyr-injected objects is outside the modelled '
                'domain (model answers OutOfDomain, the comparison stops there; monitors go on)',
-               'calling a function object made by an EARLIER evaluation / py block (its __globals__ is that '
-               "run's dead namespace object) is outside the modelled domain (OutOfDomain, as above)",
+               'reading of "py code blocks can read ... names imported through pyimport": the code copies ONLY the '
+               'context into a block (globals = context.copy()); pyimport serves `!py` strings. A name bound only '
+               'by pyimport is a NameError in a block (theorem py_step_ignores_pyimport, monitor M8); a block '
+               'imports for itself',
+               'deferred nested scopes read the context as it is when their body runs (the namespace object chains '
+               'to the live Context and imports dict) — this is what the code does and what M7 takes "can read every '
+               'context key as a plain variable" to mean for a body that runs later',
+               'a function / generator object made by a `!py` evaluation BEFORE the Context object was rehydrated '
+               '(pickle / deepcopy / copy) goes on reading the object left behind: OutOfDomain in the model, not '
+               'judged by M7 (second evaluations stop for the rest of such a session)',
+               'a generator object can be pulled only by [*g] and by foreach in the model language (iterating one '
+               'in a comprehension / += is OutOfDomain)',
+               'reflection on the namespace object that hands out the Context itself — `globals().maps[0]`, '
+               '`globals().maps[0][k] = v` — is outside the property\'s scope (like `gc`, `sys._getframe`): not '
+               'exercised; the methods of `globals()`, `.copy()`, `.new_child()`, `.parents`, `| {}` are (M9)',
+               'second evaluations (M3/M7/M8 oracles) are skipped where they would disturb the run: expressions '
+               'that mutate (.append, namespace methods), sessions that keep a function / generator object whose '
+               'body mutates, contexts that carry code objects (block oracle), a generator that has no twin (counted)',
                'a context key `__builtins__` is hidden from `!py` by the own entry of the eval namespace object '
                '(since 2f08756; reads give the builtins dict); counted, not judged — plain Python cannot hold a '
                'variable of that name in globals either',
@@ -201,6 +232,112 @@ def directed():
     S([X(Def('f', [], [], N('a')), Save(['f'])), SET(('a', tok('ctx', 'a#1'))), E(Call(N('f'))), E(N('a'))], kind='exec')
     S([E(App(N('L'), Lam([], N('a')))), E(Comp(Call(N('g')), [('g', N('L'), [])]))],
       ctx=[['a', tok('ctx', 'a')], ['L', ref(2)]], kind='mixed')
+
+    # ---- deferred nested scopes: a function / generator object made by one evaluation, run later ----
+    def ES(k, e): return {'evalset': [k, e]}
+    def FE(e): return {'foreach': e}
+    # a stored lambda reads the CURRENT context / imports / builtins, from every nesting
+    S([ES('f', Lam([], T(N('a'), N('n1'), N('len'), N('list')))), E(Call(N('f'))), SET(('a', tok('ctx', 'a#1'))),
+       SET(('pyImport', tok('special', 'pyImport'))), PI(('from', 'c14m1', 'n1', None)), E(Call(N('f'))),
+       SET(('n1', tok('ctx', 'n1#1')), ('list', tok('ctx', 'list#1'))), E(Call(N('f'))), DEL('a'), E(Call(N('f'))),
+       E(N('f'))], kind='deferred')
+    S([ES('f', Lam(['p'], Comp(Call(Lam([], T(N('p'), N('i'), N('a'), N('b')))), [('i', N('T'), [N('a')])]))),
+       SET(('a', tok('ctx', 'a#1'))), E(Call(N('f'), N('b'))), SET(('a', 0)), E(Call(N('f'), N('b')))], kind='deferred')
+    # what the creating expression bound itself stays in front of the context for its deferred scopes only
+    S([ES('f', T(W('a', N('b')), Lam([], T(N('a'), N('y'))))), E(N('a')), SET(('a', tok('ctx', 'a#1'))),
+       E(Comp(Call(N('g')), [('g', Comp(N('h'), [('h', N('f'), [Lam([], C(0))])]), [])]))], kind='deferred')
+    S([ES('p', Call(Lam(['g', 'f'], Lam([], T(Drain(N('g')), Call(N('f'))))),
+                    GenE(W('y', N('i')), [('i', N('T'), [])]), Lam([], N('y')))),
+       E(Call(N('p'))), E(N('y'))], ctx=[['T', ref(0)], ['a', tok('ctx', 'a')]], kind='deferred')
+    # foreach over a generator: the first iterable is read at once, the body at every pull, against the context
+    # as the step runner has left it (`i` of the previous iteration included)
+    S([FE(GenE(T(N('n'), N('a'), N('len')), [('n', N('T'), [])]))], kind='deferred')
+    S([SET(('pyImport', tok('special', 'pyImport'))), PI(('from', 'c14m1', 'n1', None), ('import', 'c14m2', 'x')),
+       FE(GenE(T(N('n'), N('n1'), N('x'), N('id')), [('n', N('T'), [N('a')])])), E(N('i'))], kind='deferred')
+    S([FE(GenE(T(N('j'), N('i')), [('j', N('T'), [])]))], kind='deferred')
+    S([FE(GenE(T(N('j'), N('i')), [('j', N('T'), [])]))], ctx=base + [['i', tok('ctx', 'i')]], kind='deferred')
+    S([FE(GenE(T(N('j'), N('k'), N('a'), Call(Lam([], T(N('j'), N('b'))))),
+               [('j', N('T'), []), ('k', T(N('a'), N('j')), [N('b')])]))], kind='deferred')
+    S([FE(GenE(N('nope'), [('j', N('T'), [])])), E(N('i'))], kind='deferred')
+    S([FE(GenE(N('j'), [('j', N('nope'), [])])), FE(GenE(N('j'), [('j', N('a'), [])])), FE(N('T')), FE(N('L')),
+       FE(N('a')), FE(C(0)), FE(T()), FE(Lam([], N('a'))), FE(Comp(N('a'), [('j', N('T'), [])]))], kind='deferred')
+    # a generator kept in the context and pulled by a later expression / a later foreach
+    S([ES('g', GenE(T(N('n'), N('a')), [('n', N('T'), [])])), SET(('a', tok('ctx', 'a#1'))), E(Drain(N('g'))),
+       E(Drain(N('g'))), E(N('g'))], kind='deferred')
+    S([ES('g', GenE(T(N('n'), N('a'), N('i')), [('n', N('T'), [])])), SET(('a', tok('ctx', 'a#1'))), FE(N('g')),
+       FE(N('g'))], kind='deferred')
+    S([E(T(W('g', GenE(Drain(N('g')), [('n', N('T'), [])])), Drain(N('g')))),
+       E(T(W('g', GenE(N('n'), [('n', N('T'), [])])), Drain(N('g')), Drain(N('g')))),
+       E(Drain(N('T'))), E(Drain(N('L'))), E(Drain(N('a'))), E(Drain(Lam([], C(0))))], kind='deferred')
+    # … after contextclearall / key deletion the deferred reads find nothing (the SAME objects, emptied)
+    S([SET(('pyImport', tok('special', 'pyImport'))), PI(('from', 'c14m1', 'n1', None)),
+       ES('f', Lam([], N('n1'))), ES('h', Lam([], N('a'))), E(T(Call(N('f')), Call(N('h')))),
+       {'clearall': True}, SET(('k', tok('ctx', 'k'))), E(N('k'))], kind='deferred')
+    # functions and generators made by a py block keep the block's dict (a COPY of the context) as globals
+    S([X(Def('f', [], [], T(N('a'), N('x'))), As('x', N('b')), As('g', GenE(T(N('n'), N('a')), [('n', N('T'), [])])),
+         Save(['f', 'g'])), SET(('a', tok('ctx', 'a#1'))), E(Call(N('f'))), FE(N('g')), E(N('x'))], kind='deferred')
+    S([X(Def('f', [], [('a', N('b'))], N('a'), gl=['a']), Save(['f'])), E(Call(N('f'))), E(N('a')),
+       X(Ex(App(N('obs'), Call(N('f'))))), E(N('obs'))], kind='deferred')
+    # an object made before the Context was rehydrated reads the object left behind (outside the model)
+    for how in ('copy', 'pickle'):
+        S([ES('f', Lam([], N('a'))), RH(how), SET(('a', tok('ctx', 'a#1'))), E(Call(N('f'))), E(N('a'))],
+          kind='deferred')
+
+    # ---- the namespace object's own methods (globals() / locals()) ----
+    for via in ('g', 'l'):
+        S([E(Ns('pop1', 'a', via=via)), E(N('a')), E(Ns('pop2', 'a', N('b'), via=via)), E(N('a')),
+           E(T(W('x', N('b')), Ns('pop1', 'x', via=via), N('a'))), E(T(W('a', N('b')), Ns('pop1', 'a', via=via), N('a')))],
+          kind='nsop')
+        S([E(T(Ns('popitem', via=via), N('a'))), E(N('a')), E(T(Ns('clear', via=via), N('a'), Call(Lam([], N('len'))))),
+           E(T(W('x', N('b')), Ns('popitem', via=via), Ns('popitem', via=via), N('a'))), E(T(N('a'), N('len')))],
+          kind='nsop')
+        S([E(T(Ns('setdefault', 'a', N('b'), via=via), Ns('setdefault', 'zz', N('b'), via=via), N('zz'), N('a'))),
+           E(N('zz')), E(T(Ns('setdefault', 'len', N('b'), via=via), N('len'))), E(N('len'))],
+          ctx=[['a', tok('ctx', 'a')], ['b', tok('ctx', 'b')]], kind='nsop')
+        S([E(T(Ns('update', 'a', N('b'), via=via), N('a'), Call(Lam([], N('a'))))), E(N('a')),
+           E(T(Ns('setitem', 'a', N('b'), via=via), N('a'))), E(N('a')), E(T(Ns('setitem', 'zz', N('b'), via=via), N('zz'))),
+           E(N('zz'))], kind='nsop')
+        S([E(Ns('delitem', 'a', via=via)), E(N('a')), E(T(W('x', N('a')), Ns('delitem', 'x', via=via), N('a'))),
+           E(T(W('a', N('b')), Ns('delitem', 'a', via=via), N('a'))), E(N('a'))], kind='nsop')
+    S([E(Call(Lam([], T(Ns('pop2', 'a', N('b')), Ns('update', 'a', N('b')), N('a'))))), E(N('a')),
+       E(Comp(T(Ns('setitem', 'a', N('i')), N('a')), [('i', N('T'), [])])), E(N('a')),
+       E(Comp(Ns('pop2', 'a', N('i')), [('i', N('T'), [])], gen=True)), E(N('a'))], kind='nsop')
+    S([SET(('pyImport', tok('special', 'pyImport'))), PI(('from', 'c14m1', 'n1', None)),
+       E(T(Ns('pop2', 'n1', N('b')), N('n1'))), E(T(Ns('setdefault', 'n1', N('b')), N('n1'))),
+       E(T(Ns('clear'), N('n1'), N('a')))], kind='nsop')
+    S([X(Ex(App(N('obs'), Ns('pop1', 'a'))), Ex(App(N('obs'), N('a')))), E(N('a'))], kind='nsop')
+    S([X(Ex(Ns('clear')), Ex(App(N('obs'), N('a')))), E(T(N('a'), N('obs')))], kind='nsop')
+    S([X(Ex(Ns('update', 'a', N('b'))), Ex(Ns('setitem', 'zz', N('b'))), Ex(App(N('obs'), T(N('a'), N('zz')))),
+         Ex(Ns('popitem')), Ex(Ns('delitem', 'b')), Save(['a'])), E(T(N('a'), N('b')))], kind='nsop')
+    S([X(Ex(Ns('popitem', via='l')), Save(['a'])), X(Ex(Ns('setdefault', 'a', N('b'), via='l')),
+                                                      Ex(Ns('setdefault', 'zz', N('b'))), Save(['zz']))], kind='nsop')
+
+    # ---- in-place mutation beyond append: item assignment (expression / statement), += on a value ----
+    S([E(SetI(N('L'), 0, N('a'))), E(N('L')), E(SetI(N('L'), 5, N('a'))), E(SetI(N('T'), 0, N('a'))),
+       E(SetI(N('a'), 0, N('b'))), E(SetI(N('nope'), 0, N('b'))), E(T(W('x', N('L')), SetI(N('x'), 0, N('b')), N('L'))),
+       E(Call(Lam(['p'], SetI(N('p'), 0, N('len'))), N('L'))), E(N('L'))], kind='mixed')
+    S([X(SetS(N('L'), 0, N('a')), SetS(N('L'), 7, N('a'))), E(N('L'))], kind='exec')
+    S([X(SetS(N('T'), 0, N('a'))), X(SetS(N('a'), 0, N('b'))), X(SetS(N('L'), 0, N('nope'))),
+       X(SetS(N('nope'), 0, N('zz'))), X(As('q', N('L')), SetS(N('q'), 0, T(N('a'), N('b'))), Aug('q', T(N('b'))),
+                                          Aug('L', N('T')), Ex(SetI(N('obs'), 0, N('q')))),
+       E(T(N('L'), N('obs')))], ctx=base[:5] + [['obs', ref(1)], ['y', tok('ctx', 'y')]], kind='exec')
+
+    # ---- name collisions: context key = pyimport name = builtin = a local of the block ----
+    for nm in ('a', 'len', 'T', 'y'):
+        S([PI(('from', 'c14m1', nm, None)),
+           X(Ex(App(N('obs'), T(N(nm), Call(Lam([], N(nm))), Comp(N(nm), [('i', T(C(0)), [])]),
+                                Comp(N(nm), [('i', T(C(0)), [])], gen=True)))),
+             Def('f', [], [], N(nm)), Ex(App(N('obs'), Call(N('f')))), Cls('Cq', [('m', N(nm))]),
+             Ex(App(N('obs'), N('Cq'))), Save([nm])),
+           E(T(N(nm), Call(Lam([], N(nm)))))], kind='collision')
+    S([PI(('import', 'c14m1', 'L'), ('from', 'c14m2', 'a', 'obs')),
+       X(Ex(App(N('L'), N('a'))), Ex(App(N('obs'), N('L'))), Aug('L', T(N('b')))), E(T(N('L'), N('obs')))],
+      kind='collision')
+    S([PI(('from', 'c14m1', 'a', None), ('from', 'c14m1', 'len', None)),
+       X(As('a', N('b')), Ex(App(N('obs'), T(N('a'), N('len')))), Del('a'), Del('len'),
+         Ex(App(N('obs'), N('len'))), Ex(App(N('obs'), N('a'))))], kind='collision')
+    S([PI(('from', 'c14m1', 'n1', 'save'), ('from', 'c14m1', 'n2', 'py')), X(As('x', N('a')), Save(['x'])),
+       E(T(N('save'), N('x')))], kind='collision')
     return out
 
 
@@ -269,9 +406,12 @@ def check_cases(driver, cases, sink):
         facts = set()
         evals = 0
         for op in case['ops'][:run_to]:
-            if 'eval' in op:
-                facts |= {'py:' + f for f in I.expr_facts(op['eval'])}
-                sink.count('op:eval')
+            if I.op_expr(op) is not None:
+                k = next(k for k in ('eval', 'evalset', 'foreach') if k in op)
+                facts |= {'py:' + f for f in I.expr_facts(I.op_expr(op))}
+                if k != 'eval':
+                    facts.add(k)
+                sink.count('op:' + k)
                 evals += 1
             elif 'exec' in op:
                 facts |= {'block:' + f for f in I.block_facts(op['exec'])}
@@ -354,6 +494,45 @@ class Sink:
             res.violation(case, detail, sig, obs)
 
 
+def ns_method_stream(rng, n_random):
+    """IMPLEMENTATION-ONLY cases (not compared with the model): every template x receiver x key of
+    impl_c14.NS_TEMPLATES, then `n_random` random ones with a name the expression bound itself first."""
+    out = []
+    for method, t in I.NS_TEMPLATES:
+        for recv in I.NS_RECEIVERS:
+            for key in I.NS_KEYS:
+                if key == '__builtins__' and '{k}=' in t:
+                    continue
+                if key == '__builtins__' and ('[{R}.clear(), {k}]' in t):
+                    continue
+                out.append(I.ns_method_case(method, t, recv, key))
+    for _ in range(n_random):
+        method, t = rng.choice(I.NS_TEMPLATES)
+        key = rng.choice(I.NS_KEYS[:5])
+        out.append(I.ns_method_case(method, t, rng.choice(I.NS_RECEIVERS), key, rng.choice(['b', '1', 'L']),
+                                    prebind=rng.random() < 0.5))
+    return out
+
+
+def check_impl_only(cases, sink):
+    for case in cases:
+        signal.setitimer(signal.ITIMER_REAL, 10)
+        try:
+            obs, findings = I.run_impl_only(case)
+        except Hang:
+            sink.violation(case, 'the evaluation did not return within 10 s',
+                           {'site': '_EvalNamespace', 'route': 'namespace-object-method', 'method': case['method'],
+                            'effect': 'never-returned'}, None)
+            continue
+        finally:
+            signal.setitimer(signal.ITIMER_REAL, 0)
+        sink.count('impl-only:ns-method:' + case['method'])
+        sink.count('impl-only:outcome:' + ('ok' if 'ok' in obs else obs['err']))
+        sink.case(case, True)
+        for detail, sig, o in findings:
+            sink.violation(case, detail, sig, o)
+
+
 def _worker(args):
     seed, n = args
     common.use_repo()
@@ -374,7 +553,12 @@ def _worker(args):
 
 
 def run(env, res):
-    res.rule = ('directed sessions (every scope nesting x every namespace; assignment expressions at top level / '
+    res.rule = ('directed sessions (deferred nested scopes: lambdas / generator objects kept by set: or handed to '
+                'foreach, then context updates / deletions / pyimport / contextclearall / rehydration, then called / '
+                'drained / looped over; the namespace object\'s own methods through globals() and locals(); name '
+                'collisions context key = pyimport name = builtin = block local) + an implementation-only stream '
+                'over the whole mutating surface of the namespace object (~2 000 expressions) + '
+                'directed sessions (every scope nesting x every namespace; assignment expressions at top level / '
                 'in comprehension / in lambda; pyimport names equal to context keys; py blocks with assignment, '
                 '+=, del, import, def+global, class, save; several evaluations on one Context with context updates '
                 'in between; pickle / deepcopy / copy of the Context between pyimport, !py and py blocks; '
@@ -383,7 +567,11 @@ def run(env, res):
                 'mixed: 3-7 ops on ONE Context drawn from !py expression (names bound by := earlier preferred for '
                 'later reads, keys and import aliases; probes reading a name at top level / in a lambda / in a '
                 'comprehension), pyimport, rehydrate (pickle|deepcopy|copy), context update, key deletion, '
-                'contextclearall, py block; expression depth <= 4, comprehensions with 1-3 for-clauses. '
+                'contextclearall, py block, set: k: !py (lambda | generator object | …), foreach: !py …; 12% '
+                'deferred: one function / generator object made, 1-4 context changes, run, again; import aliases and '
+                'assignment targets prefer names that are context keys / bound names (collisions); '
+                'expression depth <= 4, comprehensions with 1-3 for-clauses, generator objects, [*e], namespace '
+                'methods. '
                 'Non-trivial = the session uses at least one binding construct, nested scope or non-Python op and '
                 'the model did not stop at op 0.')
     signal.signal(signal.SIGALRM, _alarm)
@@ -391,7 +579,10 @@ def run(env, res):
     check_cases(env.driver, directed(), sink)
     sink.into(res)
     res.count('directed-sessions', len(directed()))
-    n = env.n(2000, 100000)
+    sink = Sink()
+    check_impl_only(ns_method_stream(env.rng, env.n(300, 20000)), sink)
+    sink.into(res)
+    n = env.n(5000, 100000)
     if env.quick:
         gen = I.Gen(env.rng)
         sink = Sink()
@@ -416,5 +607,8 @@ def replay(env, res, case):
         case = case['first_diverging_case']['case']
     signal.signal(signal.SIGALRM, _alarm)
     sink = Sink()
-    check_cases(env.driver, [I.render(case)], sink)
+    if case.get('kind') == 'impl-only':
+        check_impl_only([case], sink)
+    else:
+        check_cases(env.driver, [I.render(case)], sink)
     sink.into(res)
